@@ -37,6 +37,9 @@ func NewFactory(target string) (*Factory, error) {
 	_ = avfs.SetUMask(0o022)
 	f := &Factory{Target: target}
 	winSession = strings.HasSuffix(target, "-win")
+	if target == "memfs-d-win" {
+		WinVolume = "D:"
+	}
 
 	if target == "osfs" {
 		f.osfs = osfs.New()
@@ -87,6 +90,27 @@ func (f *Factory) New() (*Session, error) {
 		_ = vfs.SetUMask(0o022)
 		_ = vfs.Chdir("/")
 		s.FS = vfs
+		s.Check = memfsCheck(vfs)
+	case "memfs-d-win":
+		// the same, but everything happens in an ADDED volume D: (symbolic links that reset the walk must stay in it)
+		vfs := memfs.NewWithOptions(&memfs.Options{Idm: memidm.New(), OSType: avfs.OsWindows})
+		if vfs.OSType() != avfs.OsWindows {
+			return nil, fmt.Errorf("a Windows-typed MemFS cannot be constructed (build without avfs_setostype?)")
+		}
+
+		if err := vfs.VolumeAdd("D:"); err != nil {
+			return nil, err
+		}
+
+		_ = vfs.SetUMask(0o022)
+
+		if err := vfs.MkdirAll("D:\\"+WorkDir, 0o755); err != nil {
+			return nil, err
+		}
+
+		_ = vfs.Chdir("D:\\")
+		s.FS = vfs
+		s.Win = true
 		s.Check = memfsCheck(vfs)
 	case "memfs-win":
 		vfs := memfs.NewWithOptions(&memfs.Options{SystemDirs: winDirs, Idm: memidm.New(), OSType: avfs.OsWindows})
@@ -212,4 +236,13 @@ func asUser(uid, gid int, groups []int, fn func()) {
 	}()
 
 	fn()
+}
+
+// Impl is the name of the implementation in the specification (several targets may exercise one implementation).
+func (f *Factory) Impl() string {
+	if f.Target == "memfs-d-win" {
+		return "memfs-win"
+	}
+
+	return f.Target
 }
